@@ -612,6 +612,30 @@ pub fn variant06<R: Src>(r: &mut R, prog: &Program, kind: &Variant06) -> (Progra
                rename_rule(rule, &vars, &fwd)
             })
             .collect();
+         // in-program macros mention relations too; their parameters and local variables keep their names (the
+         // call-site variables around them change, so every collision between the two changes as well)
+         fn rels_in_items(items: &mut [BodyItem], fwd: &BTreeMap<String, String>) {
+            for it in items.iter_mut() {
+               match it {
+                  BodyItem::Clause { rel, .. } | BodyItem::Agg { rel, .. } | BodyItem::Neg { rel, .. } =>
+                     if let Some(n) = fwd.get(rel) {
+                        *rel = n.clone();
+                     },
+                  BodyItem::Disj(ds) => ds.iter_mut().for_each(|d| rels_in_items(d, fwd)),
+                  _ => {},
+               }
+            }
+         }
+         for m in p.macros.iter_mut() {
+            rels_in_items(&mut m.body, &fwd);
+            for h in m.head.iter_mut() {
+               if let HeadItem::Clause { rel, .. } = h {
+                  if let Some(n) = fwd.get(rel) {
+                     *rel = n.clone();
+                  }
+               }
+            }
+         }
       },
    }
    (p, rel_map)
